@@ -114,6 +114,21 @@ def gen_cases(ctx):
                 dch.append(enc[prev:c]); prev = c
             dch.append(enc[prev:])
             cases.append(("T", dch))
+    # streaming decode of ARBITRARY strings (malformed ones included) over a small alphabet of character classes, at every
+    # split into two pieces and a sample of three-piece splits: the verdict must be the one-shot verdict (padding state is
+    # carried across update calls)
+    tclasses = [b"Q", b"=", b" ", b"-"]
+    tmax = 7 if ctx.thorough else 6
+    for n in range(1, tmax + 1):
+        for t in itertools.product(tclasses, repeat=n):
+            sx = b"".join(t)
+            if sx.count(b"=") == 0 and sx.count(b"-") == 0 and not ctx.thorough and n > 4:
+                continue
+            for c1 in range(0, n + 1):
+                cases.append(("T", [sx[:c1], sx[c1:]]))
+            if n >= 3:
+                c1 = rng.randrange(1, n - 1); c2 = rng.randrange(c1, n)
+                cases.append(("T", [sx[:c1], sx[c1:c2], sx[c2:]]))
     for _ in range(nrand // 4):
         n = rng.randrange(0, 200)
         raw = bytes(rng.getrandbits(8) for _ in range(n))
@@ -162,6 +177,9 @@ def property_holds(c, out):
             if got != want:
                 return "decoder output differs from RFC 4648 decoding"
     elif op == "S":
+        if f[1].startswith("!dstlen"):
+            return ("base64_encode_update() did not set *dstlen for one of the pieces (an empty piece): a caller that adds up the lengths "
+                    "per call gets a different encoding for this split of the input")
         got = b"" if f[1] == "-" else bytes.fromhex(f[1])
         if got != base64.b64encode(b"".join(v)):
             return "streaming encoder output depends on chunking"
